@@ -10,9 +10,9 @@ import (
 	abci "github.com/cometbft/cometbft/abci/types"
 	sdk "github.com/cosmos/cosmos-sdk/types"
 
+	gammkeeper "github.com/osmosis-labs/osmosis/v31/x/gamm/keeper"
 	"github.com/osmosis-labs/osmosis/v31/x/gamm/pool-models/balancer"
 	"github.com/osmosis-labs/osmosis/v31/x/gamm/pool-models/stableswap"
-	gammkeeper "github.com/osmosis-labs/osmosis/v31/x/gamm/keeper"
 	gammtypes "github.com/osmosis-labs/osmosis/v31/x/gamm/types"
 	pmtypes "github.com/osmosis-labs/osmosis/v31/x/poolmanager/types"
 
